@@ -1,7 +1,7 @@
 (* Property C13 - only statements, each closed by [exact]. *)
 From Coq Require Import ZArith List Bool Ascii String.
 Import ListNotations.
-Require Import UV.C13.Model UV.C13.Proofs UV.C13.Mono UV.C13.Refuted.
+Require Import UV.C13.Model UV.C13.Proofs UV.C13.Mono UV.C13.Refuted UV.C13.Roundtrip.
 Local Open Scope Z_scope.
 
 (* ---- wrapper level: holds for ANY parser behaviour and every fuel *)
@@ -73,6 +73,29 @@ Print Assumptions C13_fuel_monotone.
 Theorem C13_checker_accepts_model : forall fuel s r, demangle_fuel fuel s = Str r -> ok_total s (IStr r) = true.
 Proof. exact checker_accepts_model. Qed.
 Print Assumptions C13_checker_accepts_model.
+
+(* ---- correctness on a formal mangler (partial: a subset of what compilers produce) *)
+
+(* For every declaration of the subset
+     _Z N <source-name>+ [C<digit> | D<digit> | <two-letter operator code, not cv/li>] E <builtin type code>*
+   (identifiers [A-Za-z_][A-Za-z0-9_]*, not of the Rust hash form, total length <= INT_MAX) the
+   demangler (with the fuel the model uses, 8*len+64) returns the qualified name
+     scope::...::last[::last | ::~last | ::operator<op>]   without parameter list.
+   Not covered by this theorem: template arguments, substitutions, local names, special names,
+   Rust escapes, non-builtin parameter types (those are differential-tested only). *)
+Theorem C13_roundtrip_subset_partial : forall d, decl_okb d = true -> demangle (mangle d) = Str (simple_name d).
+Proof. exact roundtrip_simple_name. Qed.
+Print Assumptions C13_roundtrip_subset_partial.
+
+(* non-vacuity of the guard, and what mangle / simple_name look like *)
+Theorem C13_roundtrip_examples :
+  decl_okb d_ctor = true /\ mangle d_ctor = str "_ZN2ns3ClsC1Ei" /\ simple_name d_ctor = str "ns::Cls::Cls" /\
+  decl_okb d_dtor = true /\ mangle d_dtor = str "_ZN2v88internal4HeapD0Ev" /\
+    simple_name d_dtor = str "v8::internal::Heap::~Heap" /\
+  decl_okb d_op = true /\ mangle d_op = str "_ZN2ns3ClspLEi" /\ simple_name d_op = str "ns::Cls::operator+=" /\
+  decl_okb d_fn = true /\ mangle d_fn = str "_ZN3ABC3fooEv" /\ simple_name d_fn = str "ABC::foo".
+Proof. exact roundtrip_examples. Qed.
+Print Assumptions C13_roundtrip_examples.
 
 (* ---- "total and safe for every byte string" is FALSE of the code as found: witnesses *)
 
